@@ -26,7 +26,7 @@ def _p1_jobs(tier, seed):
 
 @harness("c03.focus", props=["C03", "C05"], jobs=_p1_jobs,
          covers=["dead0", "dead1", "dead2", "all_dead", "dead_adjacent", "dead_separated",
-                 "dead_first", "dead_last", "dup_target", "self_loop", "kind_P1", "kind_PR"],
+                 "dead_first", "dead_last", "dup_target", "self_loop", "kind_P1", "kind_PR", "focus_final"],
          bounds="focus node with K<=4 (quick K<=3) transitions in an arbitrary game: successor indices: itself, a Player 2 neighbour, or any of K "
                 "interchangeable neighbours (all coincidence patterns); all reach probabilities in [0,1]; all transition "
                 "probabilities >0 summing to 1; P1 labels distinct or drawn from a 2-letter alphabet",
@@ -61,7 +61,11 @@ def c03_focus(sp, K, kind, s0=None, dup_labels=False):
         ps = probs(sp, "p", K)
         orig = [(ps[i], succ[i]) for i in range(K)]
     focus_list = list(orig)
-    states = [mk_node(kind, 0, 0, focus_list, n)]
+    # the node may itself be a (non-absorbing) final state
+    is_final = sp.flag("focus_is_final") if K <= 2 else False
+    states = [mk_node(kind, 0, 0, focus_list, n, final=is_final)]
+    if is_final:
+        sp.cover("focus_final")
     for i in range(1, K + 1):
         states.append(mk_node(PR, i, 0, [(1, i)], n))
     p2_orig = [("x", 0), ("y", pidx)]
